@@ -27,7 +27,7 @@ use stats::Stats;
 use std::collections::BTreeMap;
 use std::time::Instant;
 use stream::{gen_stream, Prop};
-use trace::{StreamTrace, Violation};
+use trace::{C04Target, StreamTrace, Violation};
 
 fn verif_dir() -> String {
     std::env::var("RTCM_VERIF_DIR").unwrap_or_else(|_| "/verif".to_string())
@@ -370,6 +370,42 @@ fn run_stream_check(opts: &Opts, prop: Prop, known: &[Known]) -> (Vec<Phase>, BT
     // phase 2: systematic sweeps
     let mut extra = json!({});
     if prop == Prop::C04 {
+        // cheapest enumerated space first: a damaged frame followed by every 3-byte continuation
+        {
+            let t0 = Instant::now();
+            let mut targets: Vec<(Vec<u8>, C04Target)> = Vec::new();
+            for (l, bit) in [(0usize, 30u32), (1, 24), (1, 9), (5, 70)] {
+                let payload: Vec<u8> = (0..l).map(|i| 0x5Au8.wrapping_add(i as u8)).collect();
+                let mut f = refmodel::make_frame(0, &payload);
+                f[bit as usize / 8] ^= 0x80 >> (bit % 8);
+                let n = f.len();
+                targets.push((f, C04Target { off: 0, frame_len: n, class: "flip1".into(), bits: vec![bit] }));
+            }
+            let (st_c, fail_c) = par_run(targets.len() as u64 * 256, opts.jobs, |i, st| {
+                let (damaged, tgt) = &targets[(i / 256) as usize];
+                let (done, bad) = sweep::continuation_slice(damaged, (i % 256) as u8);
+                st.oracle_evals += done;
+                st.probe_n("c04_continuation_sweep", done);
+                st.fault_n("c04_flip1", 1);
+                if let Some(buf) = bad {
+                    let mut t = StreamTrace::empty("C04");
+                    t.origin = format!("sweep:c04:continuation:L={}", tgt.frame_len - 6);
+                    t.run = i;
+                    t.stream = buf.clone();
+                    t.segments.push(trace::Segment { label: "foreign:damaged+flip1".into(), kind: "foreign".into(), start: 0, len: tgt.frame_len, intact: false });
+                    t.segments.push(trace::Segment { label: "noise:continuation".into(), kind: "noise".into(), start: tgt.frame_len, len: buf.len() - tgt.frame_len, intact: false });
+                    t.c04.push(tgt.clone());
+                    t.normalise();
+                    let v = judge_stream(&t, prop, None).unwrap_or_else(|| Violation::new("C04", "C04.a", "damaged frame accepted with a continuation".into()));
+                    return handle(v, Payload::Stream(t));
+                }
+                None
+            });
+            phases.push(Phase { name: "c04_continuation_sweep".into(), items: targets.len() as u64 * 256, stats: st_c, wall_s: t0.elapsed().as_secs_f64() });
+            if let Some(f) = fail_c {
+                report_failure(opts, f);
+            }
+        }
         let t0 = Instant::now();
         let thorough = opts.tier == "thorough" && !opts.secondary;
         let plan = if thorough { sweep::SweepPlan::thorough() } else { sweep::SweepPlan::quick() };
@@ -511,6 +547,7 @@ fn run_stream_check(opts: &Opts, prop: Prop, known: &[Known]) -> (Vec<Phase>, BT
                 format!("all bit pairs of {} corpus frames (frames up to {} bytes)", c.flip2_exhaustive_frames, plan.pairs_all_max_len),
                 format!("every burst span 2..=24 x every start position (all-ones interior + one random interior) of {} corpus frames (frames up to {} bytes)", c.burst_exhaustive_frames, plan.burst_all_max_len),
                 format!("every burst of span <= 24 at every start position (all interiors) over payload + checksum of the L = 1, 2, 3 frames: {} patterns", sw_total),
+                "four damaged frames x all 2^24 three-byte continuations (x 0 or 3 further bytes): always NotValid".to_string(),
                 format!("every corruption confined to the 24 checksum bits (all 2^24-1 XOR patterns, i.e. every burst interior) of {} frames: {} patterns", cw_frames.len(), cw_total),
             ],
             "sampled_subspaces": ["bit pairs on longer frames (distance biased to 1,8,23,24,25,far)", "odd counts 3..=33", "burst start positions on longer frames", "burst interior patterns"],
